@@ -536,8 +536,8 @@ def french():
         w = r["word"]
         l = lemma_of(w)
         k = marker_kind(w)
-        ens = f"fr_lemma({W(w)}) == {W(l)}, fr_marker_kind({W(w)}) == {k}"
-        asserts = [f"assert(fr_lemma({W(w)}) =~= {W(l)}) by(compute_only);", f"assert(fr_marker_kind({W(w)}) == {k}) by(compute_only);"]
+        ens = f"fr_lemma({W(w)}) == {W(l)}, fr_marker_kind({W(w)}) == {k}, no_dash_from({W(w)}, 0)"
+        asserts = [f"assert(no_dash_from({W(w)}, 0)) by(compute_only);", f"assert(fr_lemma({W(w)}) =~= {W(l)}) by(compute_only);", f"assert(fr_marker_kind({W(w)}) == {k}) by(compute_only);"]
         return ens, asserts, l
 
     rows.append({"word": ",", "kind": "comma", "digits": "", "expect": None, "desc": "a comma is never a number word (it ends the number in progress)"})
@@ -545,6 +545,9 @@ def french():
     def row_stmt(r):
         if r["word"] == ",":
             return f"!fr_model({W(',')}, o).ok && !(fr_model({W(',')}, o).err is Incomplete)"
+        return row_stmt0(r) + f", !{W(r['word'])}.contains('-')"
+
+    def row_stmt0(r):
         k = marker_kind(r["word"])
         kind = r["kind"]
         if kind in ("put", "ten"):
@@ -564,9 +567,46 @@ def french():
     extra = ["trois", "ème", "èmes", "ier", "iers", "ière", "ières", "er", "ers", "ère", "ères", "virgule", "neuf", "un", "le", "du", "l'", "numéro", "-", ""]
     allwords = set(w for ws, _, _ in arms for w in ws) | set(r["word"] for r in rows) | set(lemma_of(r["word"]) for r in rows) | set(extra)
     ARMS_CURRENT[:] = arms
-    inner = emit_rows(c, rows, word_facts, row_stmt)
+    inner = emit_rows(c, rows, word_facts, row_stmt, row_extra=lambda r: f"lemma_no_dash({W(r['word'])}, 0);")
     emit_words(c, allwords, inner, arms)
     json.dump(rows, open(os.path.join(T, f"{c}_rows.json"), "w", encoding="utf-8"), ensure_ascii=False)
+    # dispatch lemmas for the spelling driver
+    modof = {r["word"]: k % 8 for k, r in enumerate(rows)}
+    byw = {r["word"]: r for r in rows}
+    d = ["// generated by tools/gen_lang.py: words of the French speller chosen by value, with their grammar rows (used by fr_driver.inc)"]
+
+    def sel(name, doc, ws, lo):
+        d.append(f"/// {doc}")
+        d.append(f"pub open spec fn {name}(d: int) -> Seq<char> {{ " + " else ".join(f"if d == {lo + i} {{ {W(w)} }}" for i, w in enumerate(ws[:-1])) + f" else {{ {W(ws[-1])} }} }}")
+
+    def disp(name, fn, ws, lo, stmt):
+        d.append(f"pub proof fn {name}(d: int, o: DsView)")
+        d.append(f"    requires {lo} <= d <= {lo + len(ws) - 1}")
+        d.append(f"    ensures {stmt}, !{fn}(d).contains('-')")
+        d.append("{")
+        d.append("    reveal(d1); reveal(d2);")
+        for i, w in enumerate(ws):
+            d.append(f"    if d == {lo + i} {{ {c}_rows_{modof[w]}::lemma_{c}_row_{wname(w)}(o); }}")
+        d.append("}")
+    uw = [x[0] for x in units]
+    sel("fr_unit_w", "cardinal word of the digit d in 1..9", uw, 1)
+    d.append("/// blocking flag of the units un..six (0: sept, huit, neuf are never blocked)")
+    d.append("pub open spec fn fr_bit(d: int) -> u64 { if d == 1 { 1 } else if d == 2 { 2 } else if d == 3 { 4 } else if d == 4 { 8 } else if d == 5 { 16 } else if d == 6 { 32 } else { 0 } }")
+    disp("lemma_fr_unit", "fr_unit_w", uw, 1, "fr_row_unit(d1((48 + d) as u8), 0, fr_bit(d), o, fr_model(fr_unit_w(d), o))")
+    tw = [x[0] for x in teens]
+    sel("fr_teen_w", "dix .. seize: the word of 10 + d, d in 0..6", tw, 0)
+    disp("lemma_fr_teen", "fr_teen_w", tw, 0, "fr_row_teen((48 + d) as u8, 0, if d == 0 { 63u64 } else { 0u64 }, o, fr_model(fr_teen_w(d), o))")
+    tn = ["trente", "quarante", "cinquante", "soixante"]
+    sel("fr_tens_w", "trente .. soixante: the word of 10 * d, d in 3..6", tn, 3)
+    disp("lemma_fr_tens", "fr_tens_w", tn, 3, "fr_row_put(d2((48 + d) as u8, 48u8), 0, 1, o, fr_model(fr_tens_w(d), o))")
+
+    def one(name, w):
+        d.append(f"pub proof fn {name}(o: DsView) ensures {row_stmt(byw[w])} {{ {c}_rows_{modof[w]}::lemma_{c}_row_{wname(w)}(o); }}")
+    for nm, w in [("lemma_fr_vingt", "vingt"), ("lemma_fr_vingts", "vingts"), ("lemma_fr_cent", "cent"), ("lemma_fr_cents", "cents"), ("lemma_fr_mille", "mille"),
+                  ("lemma_fr_million", "million"), ("lemma_fr_millions", "millions"), ("lemma_fr_milliard", "milliard"), ("lemma_fr_milliards", "milliards"),
+                  ("lemma_fr_et", "et"), ("lemma_fr_zero", "zéro")]:
+        one(nm, w)
+    open(os.path.join(T, "fr_dispatch.inc"), "w", encoding="utf-8").write("\n".join(d) + "\n")
     print(c + ":", len(arms), "arms,", len(rows), "rows,", len(allwords), "words")
 
 
